@@ -1065,6 +1065,12 @@ pub fn cases(tier: Tier) -> Vec<Case> {
         add("named-number", "Nn", "Nn ::= INTEGER { one(1), minus(-7), big(70000) }", "minus".into(), Val::Int("-7".into()), "named-number-negative".into());
         add("named-number", "Nn", "Nn ::= INTEGER { one(1), minus(-7), big(70000) }", "big".into(), Val::Int("70000".into()), "named-number-big".into());
         add("int", "Nn", "Nn ::= INTEGER { one(1), minus(-7), big(70000) }", "42".into(), Val::Int("42".into()), "literal-of-named-number-type".into());
+        // a plain INTEGER given by a reference to a value that is itself given by a named number of its own type
+        for (n, v) in [("one", "1"), ("minus", "-7"), ("big", "70000")] {
+            add("named-number", "INTEGER", &format!("Nn ::= INTEGER {{ one(1), minus(-7), big(70000) }}\nnnv Nn ::= {n}"), "nnv".into(), Val::Int(v.into()), "reference-to-value-given-by-named-number".into());
+            // (name sorting before / after: the referenced value may or may not be linked yet)
+            add("named-number", "INTEGER", &format!("Nn ::= INTEGER {{ one(1), minus(-7), big(70000) }}\naav Nn ::= {n}"), "aav".into(), Val::Int(v.into()), "reference-to-value-given-by-named-number".into());
+        }
         // ---- booleans / null
         add("bool", "BOOLEAN", "", "TRUE".into(), Val::Bool(true), "true".into());
         add("bool", "BOOLEAN", "", "FALSE".into(), Val::Bool(false), "false".into());
@@ -1273,6 +1279,11 @@ pub fn cases(tier: Tier) -> Vec<Case> {
             let heavy = c.notation.starts_with("bstring") || c.notation.starts_with("hstring") || c.notation.starts_with("cstring") || c.notation == "oid" || c.notation == "int";
             let routes: Vec<&str> = if c.vt.is_some() && c.feature.ends_with("inline-types") { vec!["typeref", "valref", "default", "default-valref", "neighbours", "default-inline"] } else if c.vt.is_some() { vec!["typeref", "valref", "default", "default-valref", "neighbours"] } else { vec!["typeref", "valref", "default", "default-valref", "neighbours", "default-of-element"] };
             for r in routes {
+                // (a value of one referenced type given by a value of another referenced type is declined with a warning: not
+                // among the values in the bindings)
+                if c.feature == "reference-to-value-given-by-named-number" && r == "typeref" {
+                    continue;
+                }
                 // every route for every notation; for the big literal families the non-direct routes use a slice in quick
                 if false && heavy && !tier.thorough() {
                     continue;
